@@ -16,7 +16,7 @@ PROVED here (all histories from an empty pool with any tick spacing > 0, admissi
    (emission on sync + re-deposited forfeits, never negative: `history_events_nonneg`) IF the current tick before the message
    was inside [lower, upper) — the incentive analogue of `C08.growth_inside_history` (laws shared through `insideI`).
 -/
-import OsmoVerif.Proofs.CLIncHist9
+import OsmoVerif.Proofs.CLIncHist13
 import OsmoVerif.Props.C08Inc
 
 namespace OsmoVerif.Props.C08IncHist
@@ -159,6 +159,162 @@ theorem uptime_growth_inside_never_in_range {s : Full} (hi : IncInv s) (ops : Li
       rw [if_neg (h e List.mem_cons_self), ih (fun x hx => h x (List.mem_cons_of_mem _ hx))]; rfl
   rw [this _ hnever]; omega
 
+/-! ## 3a. what a position can claim, over histories -/
+
+/-- the join time of a position is fixed when it is created and never changes, whatever happens afterwards (claims, partial
+withdrawals, other positions' messages, time). -/
+theorem join_time_fixed {s : Full} (hi : IncInv s) (ops : List IOp) {q : Position} (hq : q ∈ s.fees.pool.positions) :
+    joinOf (runI s ops).inc q.id = joinOf s.inc q.id :=
+  runI_join ops hi (hi.fees.pool.core.pos.idsLt q hq)
+
+/-- creation produces, in each of the six accumulators, a fresh record: shares = liquidity, snapshot = uptime growth inside
+now, nothing unclaimed; the join time is the block time. -/
+theorem create_gives_fresh_uptime_records {s s' : Full} {owner : String} {l u a0 a1 : Int} {id : Nat} {x0 x1 liq lo up : Int}
+    (hi : IncInv s) (h : CLInc.createPosition s owner l u a0 a1 = some (s', id, x0, x1, liq, lo, up)) :
+    (∀ k, k < 6 → ∃ ins, getURec (accAt s'.inc k).recs id = some ⟨id, liq, ins, []⟩ ∧
+      ∀ d, amt ins d = insU s'.inc s'.fees.pool.tick k d lo up) ∧
+    joinOf s'.inc id = some s'.inc.now := by
+  have hap : applyI s (.fee (.create owner l u a0 a1)) = some s' := by simp only [applyI, h, Option.map_some]
+  have hf' := (applyI_facts hi hap).inv.fees
+  unfold CLInc.createPosition at h
+  obtain ⟨_, i1, hsync, _, en, _, _, ej, _, _, _, hnew, _⟩ := createMinI_part hi.fees hf'.pool.core hi.inc h
+  obtain ⟨_, eid, _⟩ := createMin_facts hi.fees.pool.core hi.fees.acc (createMinI_fees h)
+  refine ⟨hnew, ?_⟩
+  unfold joinOf
+  rw [ej, find_join_append, en]
+  cases hg : List.find? (fun e => decide (e.1 = id)) i1.join with
+  | some v =>
+    exfalso
+    obtain ⟨hp1, _, _, _, j1, _⟩ := sync_part hi.inc hsync
+    have hm := List.mem_of_find?_eq_some hg
+    have he := List.find?_some hg
+    have := hp1.joinIds v hm
+    simp only [decide_eq_true_eq] at he
+    omega
+  | none => simp
+
+/-- **what `GetClaimableIncentives` reports**, on any state satisfying the invariant: the accumulators are brought to now; per
+accumulator `j` the position's part is `claimPart` (scale-down of the whole coins of `unclaimed + round₁₈((growth inside −
+snapshot) × liquidity)`, see `CChain`); the parts of the accumulators whose uptime the position's age (now − join time) has met
+are COLLECTED, the others FORFEITED. -/
+theorem incentive_claim_split {s : Full} (hi : IncInv s) {id : Nat} {coll forf : Coins}
+    (h : claimableIncentives s id = some (coll, forf)) :
+    ∃ (pos : Position) (i1 : Inc) (T : Int), pos ∈ s.fees.pool.positions ∧ pos.id = id ∧
+      sync s.inc s.fees.pool.liquidity = some i1 ∧ joinOf s.inc id = some T ∧ 0 ≤ s.inc.now - T ∧
+      ∀ d, amt coll d = sumN six (fun j => if s.inc.now - T < upAt j then 0 else claimPart i1 s.fees.pool.tick pos.lower pos.upper id j d) ∧
+        amt forf d = sumN six (fun j => if s.inc.now - T < upAt j then claimPart i1 s.fees.pool.tick pos.lower pos.upper id j d else 0) := by
+  obtain ⟨pos, i1, i2, byUp, T, hmem, hid, hsync, _, _, hj, hage, _, hsplit, _⟩ := claimableI_spec hi h
+  exact ⟨pos, i1, T, hmem, hid, hsync, hj, hage, hsplit⟩
+
+/-- **unmet uptimes are never collected, along ANY history**: take a position with join time `T` at some moment; after any
+history (claims and partial withdrawals of the position itself included) what it can claim splits by its age `now − T` against
+the six uptimes — the part of every accumulator `j` with `now − T < uptime j` is forfeited, never collected. -/
+theorem unmet_uptime_never_collected_history {s : Full} (hi : IncInv s) {q : Position} (hq : q ∈ s.fees.pool.positions)
+    {T : Int} (hT : joinOf s.inc q.id = some T) (ops : List IOp) {coll forf : Coins}
+    (hc : claimableIncentives (runI s ops) q.id = some (coll, forf)) :
+    ∃ i1, sync (runI s ops).inc (runI s ops).fees.pool.liquidity = some i1 ∧ 0 ≤ (runI s ops).inc.now - T ∧
+      ∀ d, amt coll d = sumN six (fun j => if (runI s ops).inc.now - T < upAt j then 0
+              else claimPart i1 (runI s ops).fees.pool.tick q.lower q.upper q.id j d) ∧
+        amt forf d = sumN six (fun j => if (runI s ops).inc.now - T < upAt j
+              then claimPart i1 (runI s ops).fees.pool.tick q.lower q.upper q.id j d else 0) := by
+  have hin := runI_inv ops hi
+  obtain ⟨pos, i1, T', hmem, hid, hsync, hj, hage, hsplit⟩ := incentive_claim_split hin hc
+  rw [join_time_fixed hi ops hq, hT] at hj
+  injection hj with hj; subst hj
+  obtain ⟨e1, e2, _⟩ := runI_inside ops hi q hq pos hmem hid
+  rw [e1, e2] at hsplit
+  exact ⟨i1, hsync, hage, hsplit⟩
+
+/-- corollary: a position younger than the shortest uptime (1 ns, i.e. claimed in the block it joined) collects nothing. -/
+theorem same_block_claim_collects_nothing {s : Full} (hi : IncInv s) {q : Position} (hq : q ∈ s.fees.pool.positions)
+    {T : Int} (hT : joinOf s.inc q.id = some T) (ops : List IOp) {coll forf : Coins}
+    (hc : claimableIncentives (runI s ops) q.id = some (coll, forf)) (hnow : (runI s ops).inc.now = T) (d : String) :
+    amt coll d = 0 := by
+  obtain ⟨i1, _, _, hsplit⟩ := unmet_uptime_never_collected_history hi hq hT ops hc
+  rw [(hsplit d).1]
+  have : ∀ j ∈ six, (if (runI s ops).inc.now - T < upAt j then 0
+      else claimPart i1 (runI s ops).fees.pool.tick q.lower q.upper q.id j d) = (fun _ => (0 : Int)) j := by
+    intro j hj
+    rw [if_pos]
+    rw [hnow, Int.sub_self]
+    simp only [six, List.mem_cons, List.mem_nil_iff, or_false] at hj
+    rcases hj with rfl | rfl | rfl | rfl | rfl | rfl <;> decide
+  rw [sumN_congr this, sumN_zero]
+
+/-- **twins**: two positions with the same range whose six records agree (same liquidity, snapshot, unclaimed — the case for
+positions created in the same block with the same resulting liquidity) and the same join time can claim exactly the same
+incentives (collected AND forfeited) at every later moment of every history that addresses neither. -/
+theorem twins_equal_incentives {s : Full} (hi : IncInv s) {q1 q2 : Position}
+    (h1 : q1 ∈ s.fees.pool.positions) (h2 : q2 ∈ s.fees.pool.positions)
+    (hrange : q1.lower = q2.lower ∧ q1.upper = q2.upper)
+    (hsame : ∀ k, k < 6 → RecAgree (accAt s.inc k) q1.id q2.id) (hjoin : joinOf s.inc q1.id = joinOf s.inc q2.id)
+    (ops : List IOp) (ht : ∀ op ∈ ops, ¬ touchesI op q1.id ∧ ¬ touchesI op q2.id)
+    {c1 c2 : Coins × Coins} (hc1 : claimableIncentives (runI s ops) q1.id = some c1)
+    (hc2 : claimableIncentives (runI s ops) q2.id = some c2) : c1 = c2 := by
+  have hin := runI_inv ops hi
+  have lt1 := hi.fees.pool.core.pos.idsLt q1 h1
+  have lt2 := hi.fees.pool.core.pos.idsLt q2 h2
+  have fr1 := runI_frame ops hi lt1 (fun op ho => (ht op ho).1)
+  have fr2 := runI_frame ops hi lt2 (fun op ho => (ht op ho).2)
+  unfold claimableIncentives at hc1 hc2
+  simp only [Option.bind_eq_some_iff, Option.map_eq_some_iff] at hc1 hc2
+  obtain ⟨p1, hf1, i1, hs1, ⟨i2, x1, y1, z1⟩, hcl1, e1⟩ := hc1
+  obtain ⟨p2, hf2, i1', hs2, ⟨i2', x2, y2, z2⟩, hcl2, e2⟩ := hc2
+  rw [hs1] at hs2; injection hs2 with hs2; subst hs2
+  obtain ⟨m1, id1⟩ := find_id hf1
+  obtain ⟨m2, id2⟩ := find_id hf2
+  obtain ⟨a1, a2, _⟩ := runI_inside ops hi q1 h1 p1 m1 id1
+  obtain ⟨b1, b2, _⟩ := runI_inside ops hi q2 h2 p2 m2 id2
+  rw [a1, a2] at hcl1
+  rw [b1, b2, ← hrange.1, ← hrange.2] at hcl2
+  obtain ⟨hp1, _⟩ := sync_part hin.inc hs1
+  obtain ⟨r1, j1⟩ := sync_frame hin.inc hs1 q1.id
+  obtain ⟨r2, j2⟩ := sync_frame hin.inc hs1 q2.id
+  have hag : ∀ a ∈ i1.accs, RecAgree a q1.id q2.id := by
+    intro a ha
+    obtain ⟨k, hk⟩ := getElem?_of_mem ha
+    have hk6 : k < 6 := by have := lt_of_getElem? hk; rw [hp1.len] at this; exact this
+    obtain ⟨u1, u2, g1, g2, g3⟩ := hsame k hk6
+    have e1 := r1 k; have e2 := r2 k
+    rw [accAt_of hk, fr1.recs k] at e1
+    rw [accAt_of hk, fr2.recs k] at e2
+    exact ⟨u1, u2, by rw [e1]; exact g1, by rw [e2]; exact g2, g3⟩
+  have hj : joinOf i1 q1.id = joinOf i1 q2.id := by rw [j1, j2, fr1.join, fr2.join, hjoin]
+  obtain ⟨g1, g2, _⟩ := claimAll_congr hag hj hcl1 hcl2
+  simp only at e1 e2
+  rw [← e1, ← e2, g1, g2]
+
+/-- **a position whose range the price never entered earns no incentives, along any history**: fresh records (what creation
+produces, `create_gives_fresh_uptime_records`), no message of the history happened while the tick was in range, and the tick
+is out of range at the end (the query brings the accumulators to now at that tick) ⇒ nothing claimable — neither collected
+nor forfeited — whatever else happened (emissions, swaps crossing other ticks, other positions, time). -/
+theorem never_in_range_earns_no_incentives {s : Full} (hi : IncInv s) {q : Position} (hq : q ∈ s.fees.pool.positions)
+    (hfresh : ∀ k, k < 6 → ∃ r, getURec (accAt s.inc k).recs q.id = some r ∧
+      ∀ d, amt r.unclaimed d = 0 ∧ amt r.snap d = insU s.inc s.fees.pool.tick k d q.lower q.upper)
+    (ops : List IOp) (ht : ∀ op ∈ ops, ¬ touchesI op q.id)
+    (hnever : ∀ e ∈ histI s ops, ¬ (q.lower ≤ e.1 ∧ e.1 < q.upper))
+    (hend : ¬ (q.lower ≤ (runI s ops).fees.pool.tick ∧ (runI s ops).fees.pool.tick < q.upper))
+    {coll forf : Coins} (hc : claimableIncentives (runI s ops) q.id = some (coll, forf)) : coll = [] ∧ forf = [] := by
+  have hin := runI_inv ops hi
+  have lt1 := hi.fees.pool.core.pos.idsLt q hq
+  have fr := runI_frame ops hi lt1 ht
+  unfold claimableIncentives at hc
+  simp only [Option.bind_eq_some_iff, Option.map_eq_some_iff, Prod.mk.injEq] at hc
+  obtain ⟨p, hf, i1, hs, ⟨i2, x, y, z⟩, hcl, e1, e2⟩ := hc
+  simp only at e1 e2; subst e1; subst e2
+  obtain ⟨m, hid⟩ := find_id hf
+  obtain ⟨a1, a2, _⟩ := runI_inside ops hi q hq p m hid
+  obtain ⟨hp1, t1, _⟩ := sync_part hin.inc hs
+  obtain ⟨r1, _⟩ := sync_frame hin.inc hs q.id
+  rw [← hid] at hcl
+  refine claim_nothing hin.fees hp1 m (fun k hk => ?_) hcl
+  obtain ⟨r, hr, hz⟩ := hfresh k hk
+  refine ⟨r, by rw [hid, r1 k, fr.recs k]; exact hr, fun d => ⟨(hz d).1, ?_⟩⟩
+  have hlu := hi.fees.pool.core.pos.range q hq
+  rw [(hz d).2, a1, a2, insU_step (i := (runI s ops).inc) (i' := i1) (cur := (runI s ops).fees.pool.tick) hlu k d (by rw [t1]) (by rw [t1]),
+    if_neg hend, Int.add_zero]
+  exact (uptime_growth_inside_never_in_range hi ops hq m hid hnever k d).symm
+
 /-! non-vacuity: the history of Props/C08Inc's demo as a message list — two positions, two incentive records, time passing, a swap
 that crosses tick 0 (bob leaves the range), more time, a sync -/
 
@@ -192,5 +348,76 @@ example :
     (insU (runI demo0 demoPre).inc 0 0 "inc1" (-1000) 1000, insU (runI (runI demo0 demoPre) demoOps).inc (-499) 0 "inc1" (-1000) 1000) =
       (149887593668, 149887593668 + 79928072721 + 24981265611) := by
   decide +kernel
+
+/-! non-vacuity for section 3a: twins (bob, bert: same block, same range, same amounts), a position whose range is never
+entered (carol), an incentive collect by alice in between, a swap moving the tick inside the common bucket -/
+
+/-- decidable form of `RecAgree`. -/
+def recAgreeB (a : UAcc) (id1 id2 : Nat) : Bool :=
+  match getURec a.recs id1, getURec a.recs id2 with
+  | some r1, some r2 => decide (r1.shares = r2.shares) && decide (r1.snap = r2.snap) && decide (r1.unclaimed = r2.unclaimed)
+  | _, _ => false
+
+theorem recAgree_of_B {a : UAcc} {id1 id2 : Nat} (h : recAgreeB a id1 id2 = true) : RecAgree a id1 id2 := by
+  unfold recAgreeB at h
+  split at h
+  · rename_i r1 r2 h1 h2
+    simp only [Bool.and_eq_true, decide_eq_true_eq] at h
+    exact ⟨r1, r2, h1, h2, h.1.1, h.1.2, h.2⟩
+  · cases h
+
+def demoTwPre : List IOp :=
+  [.fee (.create "alice" (-1000) 1000 1000000 1000000), .incentive 1 "inc0" 1000000 (1000 * P18) 0 1,
+   .incentive 2 "inc1" 500000 (10 * P18) 0 0, .advance 30000000000, .fee (.create "bob" 0 2000 500000 500000),
+   .fee (.create "bert" 0 2000 500000 500000)]
+
+def demoTwOps : List IOp :=
+  [.advance 20000000000, .fee (.swap true false 20000), .advance 70000000000, .icollect "alice" 1, .advance 5000000000]
+
+def demoTw : Full := runI demo0 demoTwPre
+
+theorem demoTw_inv : IncInv demoTw := reachable_inv_inc (by decide) ⟨by decide, by decide⟩ (by decide) demoTwPre
+
+/-- the hypotheses of `twins_equal_incentives` hold for bob (2) and bert (3) … -/
+example :
+    (∀ k, k < 6 → recAgreeB (accAt demoTw.inc k) 2 3 = true) ∧ joinOf demoTw.inc 2 = joinOf demoTw.inc 3 ∧
+    (demoTw.fees.pool.positions.map fun q => (q.id, q.lower, q.upper)) = [(1, -1000, 1000), (2, 0, 2000), (3, 0, 2000)] ∧
+    claimableIncentives (runI demoTw demoTwOps) 2 = some ([("inc0", 15841), ("inc1", 158)], []) ∧
+    claimableIncentives (runI demoTw demoTwOps) 3 = some ([("inc0", 15841), ("inc1", 158)], []) := by
+  decide +kernel
+
+/-- … and after the join times are fixed (`join_time_fixed`): alice joined at 0, bob and bert at 30 s, still so at 125 s. -/
+example : (runI demoTw demoTwOps).inc.now = 125000000000 ∧
+    [joinOf (runI demoTw demoTwOps).inc 1, joinOf (runI demoTw demoTwOps).inc 2, joinOf (runI demoTw demoTwOps).inc 3] =
+      [some 0, some 30000000000, some 30000000000] := by
+  decide +kernel
+
+/-- unmet uptime along a history: at 55 s (the demo of section 2) alice (joined at 0) and bob (joined at 30 s) have both met only
+the 1 ns uptime: the 1-minute incentive "inc0" is forfeitable, not collectable — hypotheses of
+`unmet_uptime_never_collected_history` and its conclusion's visible part. -/
+example :
+    joinOf (runI demo0 demoPre).inc 1 = some 0 ∧ joinOf (runI demo0 demoPre).inc 2 = some 30000000000 ∧
+    claimableIncentives (runI (runI demo0 demoPre) demoOps) 1 = some ([("inc1", 509)], [("inc0", 50997)]) ∧
+    claimableIncentives (runI (runI demo0 demoPre) demoOps) 2 = some ([("inc1", 40)], [("inc0", 4002)]) ∧
+    (runI (runI demo0 demoPre) demoOps).inc.now - 0 < upAt 1 ∧ upAt 0 ≤ (runI (runI demo0 demoPre) demoOps).inc.now - 30000000000 := by
+  decide +kernel
+
+/-- never in range: carol's position [3000, 4000) is created (fresh records by `create_gives_fresh_uptime_records`), the tick stays
+in [0, 13]: every message of the history happens out of her range, and she can claim nothing, as
+`never_in_range_earns_no_incentives` says. -/
+example :
+    (∃ s1, s1 = stepI demoTw (.fee (.create "carol" 3000 4000 500000 500000)) ∧
+      (applyI demoTw (.fee (.create "carol" 3000 4000 500000 500000))).isSome = true ∧
+      (s1.fees.pool.positions.map fun q => (q.id, q.lower, q.upper)) = [(1, -1000, 1000), (2, 0, 2000), (3, 0, 2000), (4, 3000, 4000)] ∧
+      (∀ e ∈ histI s1 demoTwOps, ¬ ((3000 : Int) ≤ e.1 ∧ e.1 < 4000)) ∧
+      ¬ ((3000 : Int) ≤ (runI s1 demoTwOps).fees.pool.tick ∧ (runI s1 demoTwOps).fees.pool.tick < 4000) ∧
+      (∀ op ∈ demoTwOps, ¬ touchesI op 4) ∧
+      claimableIncentives (runI s1 demoTwOps) 4 = some ([], []) ∧
+      claimableIncentives (runI s1 demoTwOps) 1 = some ([("inc0", 3332), ("inc1", 33)], [])) := by
+  refine ⟨stepI demoTw (.fee (.create "carol" 3000 4000 500000 500000)), rfl, by decide +kernel, by decide +kernel, by decide +kernel,
+    by decide +kernel, ?_, by decide +kernel, by decide +kernel⟩
+  intro op hop
+  simp only [demoTwOps, List.mem_cons, List.mem_nil_iff, or_false] at hop
+  rcases hop with rfl | rfl | rfl | rfl | rfl <;> simp [touchesI]
 
 end OsmoVerif.Props.C08IncHist
